@@ -44,6 +44,10 @@ BOX_BIN = {"widening_assign": "sub", "CC76_widening_assign": "sub", "CC76_narrow
            "add_constraints_of": None, "refine_with_constraints_of": None, "limited_CC76_extrapolation_assign_of": "sub"}
 PS_BIN = {"simplify_using_context_assign": None, "least_upper_bound_assign": None, "meet_assign": None,
           "BGP99_extrapolation_assign": "sub", "BHZ03_widening_assign": "sub", "add_disjunct_first_of": None, "add_disjunct_last_of": None}
+# powerset operations whose result is a function of the two SETS OF DISJUNCTS (lifted disjunct-wise or defined on the
+# collections): these are also compared with the same call on deep, unshared rebuilds of both operands
+PS_DEEP = {"intersection_assign", "upper_bound_assign", "difference_assign", "time_elapse_assign", "concatenate_assign",
+           "upper_bound_assign_if_exact", "least_upper_bound_assign", "meet_assign", "BGP99_extrapolation_assign", "BHZ03_widening_assign"}
 PROD_BIN = {"widening_assign": "sub", "add_constraints_of": None, "refine_with_constraints_of": None}
 
 DOMS = {
@@ -155,9 +159,22 @@ class Gen:
         return self.r.choice([1, 1, 1, 2, 3, -1, -2])
 
     # ---- semantic domains ----
+    def boxcons(self, n):
+        """a bounded box lo_i <= x_i <= hi_i, mostly NOT containing the origin (its time-elapse with itself enlarges it)"""
+        r = self.r
+        cs = []
+        for i in range(n):
+            lo = r.randint(-4, 3); hi = lo + r.randint(0, 2)
+            e = [0] * n; e[i] = 1
+            cs.append(">= %d %s" % (-lo, " ".join(map(str, e))))
+            e[i] = -1
+            cs.append(">= %d %s" % (hi, " ".join(map(str, e))))
+        return "%d %s" % (len(cs), " ".join(cs))
+
     def new(self, oid, dom, n):
         r = self.r
         how = r.random()
+        if dom == "PS" and n > 0 and how > 0.6: return "new %d %d cons %s" % (oid, n, self.boxcons(n))
         if how < 0.07: return "new %d %d universe" % (oid, n)
         if how < 0.14: return "new %d %d empty" % (oid, n)
         if dom in ("C", "NNC") and how < 0.5: return "new %d %d gens %s" % (oid, n, self.gens(n, dom))
@@ -179,7 +196,7 @@ class Gen:
         p = "op %d %s" % (x, op)
         if op in ("refine_with_constraint", "add_constraint"): return "%s %s" % (p, self.con(n, dom))
         if op in ("refine_with_constraints", "add_constraints", "add_recycled_constraints"): return "%s %s" % (p, self.cons(n, dom, 1, 3))
-        if op == "add_disjunct": return "%s %s" % (p, self.cons(n, "C", 1, 3))
+        if op == "add_disjunct": return "%s %s" % (p, self.boxcons(n) if (n > 0 and r.random() < 0.4) else self.cons(n, "C", 1, 3))
         if op == "add_generator": return "%s %s" % (p, self.gen(n, dom))
         if op in ("add_generators", "add_recycled_generators"): return "%s %s" % (p, self.gens(n, dom, 1, 3))
         if op == "add_congruence": return "%s %s" % (p, self.cg(n))
@@ -248,7 +265,12 @@ class Gen:
                 q = r.choice(QRY_COMMON + d["qry"] * 2)
                 y = pick_arg(x)
                 drop_twins()
-                lines += ["copy 10 %d" % x, "copy 11 %d" % y, "qry 10 %s 11" % q, "qry %d %s %d" % (x, q, y), "eqres"]
+                if dom == "PS" and q in ("contains", "is_disjoint_from", "geometrically_covers", "geometrically_equals", "definitely_entails"):
+                    lines += ["copy 10 %d" % x, "copy 11 %d" % y, "rebuild 20 %d" % x, "rebuild 21 %d" % y,
+                              "qry 20 %s 21" % q, "qry 10 %s 11" % q, "qry %d %s %d" % (x, q, y), "eqres3"]
+                    twins += [20, 21]; dims[20] = dims[x]; dims[21] = dims[y]
+                else:
+                    lines += ["copy 10 %d" % x, "copy 11 %d" % y, "qry 10 %s 11" % q, "qry %d %s %d" % (x, q, y), "eqres"]
                 twins += [10, 11]; dims[10] = dims[x]; dims[11] = dims[y]
             else:
                 # paired binary / ternary operation
@@ -269,17 +291,37 @@ class Gen:
                     z = r.choice([x, y] + [t for t in range(POOL) if dims[t] == dims[x]])
                 if op.endswith("_tp"): extra = textra = " %d" % r.choice([0, 1, 2])
                 if op == "BGP99_extrapolation_assign": extra = textra = " %d" % r.choice([1, 2, 3])
+                # powersets: make receiver and argument SHARE disjunct representations by one of the routes through which
+                # Determinate handles get shared (the argument may also be the receiver itself)
+                if dom == "PS" and y != x and dims[y] == dims[x] and op != "concatenate_assign" and r.random() < 0.6:
+                    route = r.choice(["copy", "assign", "swap", "upper_bound", "lub", "meet_self"])
+                    if route == "copy": lines.append("copy %d %d" % (y, x))
+                    elif route == "assign": lines.append("op %d assign %d" % (y, x))
+                    elif route == "swap": lines += ["copy %d %d" % (y, x), "op %d swap %d" % (y, x), "op %d swap %d" % (x, y)]
+                    elif route == "upper_bound": lines.append("op %d upper_bound_assign %d" % (y, x))
+                    elif route == "lub": lines.append("op %d least_upper_bound_assign %d" % (y, x))
+                    else: lines += ["op %d assign %d" % (y, x), "op %d add_disjunct_first_of %d" % (y, x)]
+                    if pre == "sub": lines.append("op %d upper_bound_assign %d" % (x, y))
+                    if pre == "sup": lines.append("op %d intersection_assign %d" % (x, y))
+                deep = dom == "PS" and op in PS_DEEP
                 drop_twins()
                 lines += ["copy 10 %d" % x, "copy 11 %d" % y]
                 twins += [10, 11]; dims[10] = dims[x]; dims[11] = dims[y]
+                if deep:
+                    # the same call on DEEP, UNSHARED rebuilds (from the constraints of every disjunct) of both operands
+                    lines += ["rebuild 20 %d" % x, "rebuild 21 %d" % y]
+                    twins += [20, 21]; dims[20] = dims[x]; dims[21] = dims[y]
+                    lines.append("op 20 %s 21%s" % (op, textra))
                 if z is not None:
                     lines.append("copy 12 %d" % z); twins.append(12); dims[12] = dims[z]
                     extra += " %d" % z; textra += " 12"
                 lines.append("op 10 %s 11%s" % (op, textra))
                 lines.append("op %d %s %d%s" % (x, op, y, extra))
-                lines += ["eqres", "eq %d 10" % x]
+                if deep: lines += ["eqres3", "eq 10 20", "eq %d 20" % x]
+                else: lines += ["eqres", "eq %d 10" % x]
                 if op == "concatenate_assign":
                     dims[10] = dims[10] + dims[11]; dims[x] = dims[10]
+                    if deep: dims[20] = dims[10]
                 if dom == "PS" and r.random() < 0.5:
                     lines.append("op %d %s" % (x, r.choice(["pairwise_reduce", "collapse", "omega_reduce"])))
         drop_twins()
